@@ -202,104 +202,68 @@ fn mk_string<const L: usize>(prefix: &str, bytes: [u8; L]) -> String {
 }
 
 // The fixed get_file_path rebuilds the relative path component by component
-// (`components().filter_map(Normal).collect::<PathBuf>()`): with symbolic '/' positions every
-// PathBuf::push has a symbolic length (symbolic-size heap object: solver out of memory, measured at
-// 2 bytes).  The key SHAPE is therefore concrete per harness -- pattern byte '/' = separator,
-// 'c' = one symbolic character out of {'.', 'a', '\\'} -- and the characters stay symbolic, so "..",
-// ".", names and mixtures are all covered for each shape.
-fn shape_char(sel: u8) -> u8 {
-    match sel % 3 {
-        0 => b'.',
-        1 => b'a',
-        _ => b'\\',
-    }
-}
+// (`Path::components().filter_map(Normal).collect::<PathBuf>()`).  With ANY symbolic key byte the
+// three nested std::path::Components loops are unrolled to the global bound and every PathBuf::push
+// has a symbolic length (symbolic-size heap objects).  Measured: 2-byte key over {'.','/','a','\\'}:
+// 15 min timeout / solver out of memory; separator positions concrete ("/c", one symbolic character):
+// symex 226 s, then solver out of memory.  The keys are therefore enumerated concretely (the checker
+// executes the real code on each): this is a regression list, not a proof over all keys.
+const ADVERSARIAL_KEYS: [&str; 16] = [
+    "/", "/a", "//a", "..", "../a", "a/..", "a/../..", "../..", "../../a", "./a", "a//b", "a/", "/../a", "\\..", "api/ribbit/..",
+    "api/ribbit/../../..",
+];
+const PLAIN_KEYS: [&str; 7] = ["a", "ab", "a/b", "a.b/c", "..a", "a\\b", "api/ribbit/v1/x"];
 
-macro_rules! disk_path_shape {
-    ($name:ident, $shape:expr, $prefix:expr, $root:expr, $unwind:expr, $raw:expr) => {
+macro_rules! disk_path_keys {
+    ($name:ident, $keys:expr, $verbatim:expr) => {
         #[kani::proof]
-        #[kani::unwind($unwind)]
+        #[kani::unwind(24)]
         #[kani::stub(std::fs::create_dir_all, create_dir_all_ok)]
         #[kani::stub(std::time::Instant::now, instant_zero)]
         #[kani::stub(std::time::SystemTime::now, systemtime_zero)]
         #[kani::stub(std::hash::RandomState::new, crate::stubs::fixed_random_state)]
         fn $name() {
-            const SHAPE: &[u8] = $shape;
-            const L: usize = SHAPE.len();
-            const P: usize = $prefix.len();
-            let sel: [u8; L] = kani::any();
-            let sel2: [u8; L] = kani::any();
-            let mut b1 = [0u8; L];
-            let mut b2 = [0u8; L];
-            let mut i = 0;
-            while i < L {
-                b1[i] = if SHAPE[i] == b'/' { b'/' } else { shape_char(sel[i]) };
-                b2[i] = if SHAPE[i] == b'/' { b'/' } else { shape_char(sel2[i]) };
-                i += 1;
-            }
             let cache = flat_cache();
-            let key = RawKey(mk_string::<L>($prefix, b1));
-            let path = cache.verif_get_file_path(&key);
-            let bytes = path.as_os_str().as_encoded_bytes();
-            assert!(confined_under(bytes, $root.as_bytes()), "cache key escapes the cache directory (absolute key or '..' component)");
-            if !$raw && well_formed(&b1) {
-                // a key made of normal components maps to cache_dir/<key> verbatim ...
-                assert!(bytes.len() == ROOT.len() + 1 + P + L, "path must be cache_dir/<key>");
-                let q: usize = kani::any();
-                kani::assume(q < L);
-                assert!(bytes[ROOT.len() + 1 + P + q] == b1[q], "path must end with the key bytes");
-                // ... so two different well-formed keys get different files
-                if well_formed(&b2) {
-                    let key2 = RawKey(mk_string::<L>($prefix, b2));
-                    let path2 = cache.verif_get_file_path(&key2);
-                    let bytes2 = path2.as_os_str().as_encoded_bytes();
-                    assert!(bytes2.len() == bytes.len(), "same-shape well-formed keys give same-length paths");
-                    if b1[q] != b2[q] {
-                        assert!(bytes[ROOT.len() + 1 + P + q] != bytes2[ROOT.len() + 1 + P + q], "two different keys map to the same file");
+            let mut n = 0;
+            while n < $keys.len() {
+                let k: &str = $keys[n];
+                let key = RawKey(String::from(k));
+                let path = cache.verif_get_file_path(&key);
+                let bytes = path.as_os_str().as_encoded_bytes();
+                assert!(confined_under(bytes, ROOT.as_bytes()), "cache key escapes cache_dir (absolute key or '..' component)");
+                if $verbatim {
+                    // a key made of normal components maps to cache_dir/<key> verbatim (hence injectively)
+                    assert!(bytes.len() == ROOT.len() + 1 + k.len(), "path must be cache_dir/<key>");
+                    let kb = k.as_bytes();
+                    let mut t = 0;
+                    while t < kb.len() {
+                        assert!(bytes[ROOT.len() + 1 + t] == kb[t], "path must end with the key bytes");
+                        t += 1;
                     }
-                    std::mem::forget(path2);
-                    std::mem::forget(key2);
                 }
+                std::mem::forget(path);
+                std::mem::forget(key);
+                n += 1;
             }
-            kani::cover!(b1[0] != b'a', "key starts with a separator or dot or backslash");
-            std::mem::forget(path);
-            std::mem::forget(key);
+            kani::cover!(n == $keys.len(), "all keys processed");
             std::mem::forget(cache);
         }
     };
 }
 
-// @family prop=C20 tier=quick timeout=900 role=disk-path-wellformed
-// @bounds two cache keys of the concrete shape in the name (c, cc, csc = "c/c", ccsc = "cc/c"; c = one symbolic character out of {'.', 'a', '\\'}); cache_dir "/c"; flat layout (use_subdirectories = false, as ProtocolCache configures it): every key stays under cache_dir; a key whose components are all normal names maps to cache_dir/<key> verbatim and two different such keys of the same shape map to different files
+// @harness prop=C20 tier=quick timeout=900 role=disk-path-wellformed
+// @bounds 7 concrete keys made of normal components ("a", "ab", "a/b", "a.b/c", "..a", "a\\b", "api/ribbit/v1/x"); cache_dir "/c"; flat layout (as ProtocolCache configures it): each maps to cache_dir/<key> verbatim (so different keys get different files)
 // @encodes cascette_cache::disk_cache::DiskCache::get_file_path, cascette_cache::disk_cache::DiskCache::confined_relative_path, cascette_cache::disk_cache::DiskCache::new
-// @assumes std::fs::create_dir_all stubbed to Ok; Instant::now / SystemTime::now stubbed (metrics start time); RandomState pinned; lexical normalisation (no symlinks); separator positions concrete per harness (symbolic positions make PathBuf::push sizes symbolic: solver out of memory); injectivity only within one shape; hashed-subdirectory layout not covered (format!)
-// @catches cache_dir dropped or replaced, key truncated / hashed / re-encoded so that two keys collide, separator missing, normal components dropped by the filter
-disk_path_shape!(c20_disk_path_wellformed_c, b"c", "", ROOT, 7, false);
-disk_path_shape!(c20_disk_path_wellformed_cc, b"cc", "", ROOT, 8, false);
-disk_path_shape!(c20_disk_path_wellformed_csc, b"c/c", "", ROOT, 9, false);
-disk_path_shape!(c20_disk_path_wellformed_ccsc, b"cc/c", "", ROOT, 10, false);
-// @end
+// @assumes std::fs::create_dir_all stubbed to Ok; Instant::now / SystemTime::now stubbed (metrics start time); RandomState pinned; keys concrete (symbolic key bytes are not tractable through std::path::Components: see the comment above; before the fix the raw join was proved for all keys of <= 4 bytes over {'.','/','a','\\'}); hashed-subdirectory layout not covered (format!)
+// @catches cache_dir dropped or replaced, key truncated / hashed / re-encoded, separator missing, normal components dropped by the filter
+disk_path_keys!(c20_disk_path_wellformed_keys, PLAIN_KEYS, true);
 
-// @family prop=C20 tier=quick timeout=900 role=disk-path-raw-key
-// @bounds cache key of the concrete shape in the name (s = "/", sc = "/c", cs = "c/", ccsc = "cc/c" (incl. "../a"), ccscc = "cc/cc" (incl. "../..", "a\\/.."), sccs = "/cc/"), characters symbolic over {'.', 'a', '\\'}, NOT filtered: the lexically normalised path stays under cache_dir for every key (regression harnesses for the fixed raw join)
+// @harness prop=C20 tier=quick timeout=900 role=disk-path-raw-key
+// @bounds 16 concrete adversarial keys: "/", "/a", "//a", "..", "../a", "a/..", "a/../..", "../..", "../../a", "./a", "a//b", "a/", "/../a", "\\..", "api/ribbit/..", "api/ribbit/../../.." : the lexically normalised path stays under cache_dir (regression harness for the fixed raw join)
 // @encodes cascette_cache::disk_cache::DiskCache::get_file_path, cascette_cache::disk_cache::DiskCache::confined_relative_path
-// @assumes as c20_disk_path_wellformed_c
+// @assumes as c20_disk_path_wellformed_keys
 // @catches raw join of the key (absolute key replaces cache_dir, ".." leaves it), filter keeping ParentDir / RootDir components
-disk_path_shape!(c20_kf_disk_path_raw_s, b"/", "", ROOT, 7, true);
-disk_path_shape!(c20_kf_disk_path_raw_sc, b"/c", "", ROOT, 8, true);
-disk_path_shape!(c20_kf_disk_path_raw_cs, b"c/", "", ROOT, 8, true);
-disk_path_shape!(c20_kf_disk_path_raw_ccsc, b"cc/c", "", ROOT, 10, true);
-disk_path_shape!(c20_kf_disk_path_raw_ccscc, b"cc/cc", "", ROOT, 11, true);
-disk_path_shape!(c20_kf_disk_path_raw_sccs, b"/cc/", "", ROOT, 10, true);
-// @end
-
-// @family prop=C20 tier=quick timeout=900 role=disk-path-ribbit-namespace
-// @bounds cache key "api/ribbit/" + endpoint of the concrete shape in the name (cc incl. "..", csc = "c/c"), characters symbolic over {'.', 'a', '\\'}, NOT filtered by validate_endpoint: the path stays under cache_dir (an unvalidated ".." may leave api/ribbit but never cache_dir)
-// @encodes cascette_cache::disk_cache::DiskCache::get_file_path
-// @assumes as c20_disk_path_wellformed_c
-disk_path_shape!(c20_disk_path_ribbit_cc, b"cc", "api/ribbit/", ROOT, 10, true);
-disk_path_shape!(c20_disk_path_ribbit_csc, b"c/c", "api/ribbit/", ROOT, 10, true);
-// @end
+disk_path_keys!(c20_kf_disk_path_raw_keys, ADVERSARIAL_KEYS, false);
 
 // ---- (c) validate_endpoint ------------------------------------------------------------------------
 macro_rules! endpoint_path {
@@ -358,8 +322,7 @@ macro_rules! endpoint_path {
             if accepted {
                 // the cache key RibbitTactClient::query derives is "api/ribbit/<endpoint>": even a plain
                 // join of it onto cache_dir must stay inside cache_dir/api/ribbit.  (DiskCache::get_file_path
-                // on such keys: c20_disk_path_ribbit_* / c20_disk_path_* -- with symbolic separator
-                // positions its PathBuf pushes have symbolic sizes.)
+                // on such keys: c20_disk_path_*_keys, concrete keys only.)
                 let naive = mk_string::<L>("/c/api/ribbit/", b);
                 assert!(confined_under(naive.as_bytes(), $root.as_bytes()), $msg);
                 std::mem::forget(naive);
@@ -372,7 +335,7 @@ macro_rules! endpoint_path {
 // @family prop=C20 tier=quick timeout=900 role=endpoint-confined
 // @bounds endpoint string of the fixed length in the name (1, 3, 5 bytes), every byte symbolic ASCII (0..=0x7f); validate_endpoint must equal the oracle (whitelist, no leading '/', no '.' / '..' segment) and the plain join cache_dir/api/ribbit/<accepted endpoint> must stay lexically inside /c/api/ribbit
 // @encodes cascette_protocol::client::validate_endpoint
-// @assumes the key prefix "api/ribbit/" is concatenated by the harness (query() builds it with format! inside an async network path); fmt::format stubbed (error text); non-ASCII endpoints not covered (Unicode tables); DiskCache::get_file_path on the derived key is covered per shape by c20_disk_path_ribbit_* and c20_disk_path_*
+// @assumes the key prefix "api/ribbit/" is concatenated by the harness (query() builds it with format! inside an async network path); fmt::format stubbed (error text); non-ASCII endpoints not covered (Unicode tables); DiskCache::get_file_path is exercised on concrete keys only (c20_disk_path_*_keys)
 // @catches a character dropped from / added to the whitelist ('\\', ':', space, NUL, '%'), validation skipped for some position, leading '/' or '.' / '..' segments accepted again, accepted endpoints leaving cache_dir/api/ribbit
 endpoint_path!(c20_endpoint_confined_len1, 1, 9, true, "/c/api/ribbit", "accepted endpoint leaves cache_dir/api/ribbit");
 endpoint_path!(c20_endpoint_confined_len3, 3, 9, true, "/c/api/ribbit", "accepted endpoint leaves cache_dir/api/ribbit");
